@@ -396,3 +396,7 @@ package ast
 //@ props C01 C05 C12
 //@ invariant forall i :: 0 <= i && i < len(self.Param) ==> self.Param[i] != nil
 //@ invariant self.Grok != nil ==> 2 <= len(self.Param) && len(self.Param) <= 3
+
+//@ struct MapLiteral
+//@ props C01 C05 C08
+//@ invariant forall i :: 0 <= i && i < len(self.KeyValeList) ==> self.KeyValeList[i][0] != nil
